@@ -212,8 +212,13 @@ impl TypeCollector {
     ) -> Vec<EventContext> {
         let type_resolver = analyzer.get_type_resolver();
 
+        // One listener per distinct event name: the same event is often emitted from
+        // several places, and two `export async function onX` would not compile
+        let mut seen_names = std::collections::HashSet::new();
+
         events
             .iter()
+            .filter(|event| seen_names.insert(event.event_name.clone()))
             .map(|event| {
                 EventContext::new(config).from_event_info(event, visitor, &|rust_type: &str| {
                     type_resolver.borrow_mut().parse_type_structure(rust_type)
